@@ -32,8 +32,14 @@ def main():
     out = {"dir": d, "crates": crates, "at": time.strftime("%Y-%m-%dT%H:%M:%SZ", time.gmtime())}
     demo_cmd = meta["demo_cmd"]
     # run the demonstration in the scratch worktree, whatever directory the author used
-    demo_cmd = re.sub(r"cd\s+\S+\s*&&\s*", "", demo_cmd).split("(or")[0].strip()
-    demo_cmd = re.sub(r"/tmp/mut/C\d+/repo", wt, demo_cmd)
+    mm = re.search(r"cargo\s+(?:nextest run|test)[^()\n;&|]*?--test\s+([A-Za-z0-9_]+)", demo_cmd)
+    if mm:
+        # canonical form: the named integration test of the named package
+        pkg = re.search(r"-p\s+(\S+)", mm.group(0))
+        demo_cmd = f"cargo nextest run -p {pkg.group(1) if pkg else crates[0]} --offline --no-fail-fast --test {mm.group(1)}"
+    else:
+        demo_cmd = re.sub(r"cd\s+\S+\s*&&\s*", "", demo_cmd).split("(or")[0].strip()
+        demo_cmd = re.sub(r"/tmp/mut/C\d+/repo", wt, demo_cmd)
     out["demo_cmd"] = demo_cmd
     # 1. demonstration alone
     rc, _ = sh(f"git apply {d}/demo.diff", wt)
